@@ -33,6 +33,19 @@ def make_file(rng, style='plain'):
     return '\n'.join(lines) + '\n'
 
 
+def with_include(text, rng, tmp):
+    """moves nothing: adds an include file with atoms (last line an atom) right before the first atom of the main file"""
+    import os
+    lines = text.rstrip('\n').split('\n')
+    fv = [i for i, l in enumerate(lines) if l.upper().startswith('FVAR')][-1] + 1
+    body = ['Z%d 1 %.5f %.5f %.5f 11.00000 0.05' % (j, rng.random(), rng.random(), rng.random()) for j in range(rng.randint(1, 3))]
+    open(os.path.join(tmp, 'solv.inc'), 'w').write('\n'.join(body) + '\n')
+    lines.insert(fv, '+solv.inc')
+    main = os.path.join(tmp, 'main.res')
+    open(main, 'w').write('\n'.join(lines) + '\n')
+    return main, '\n'.join(lines) + '\n'
+
+
 def ascii_ok(s):
     return all(32 <= ord(c) < 127 for c in s)
 
@@ -63,9 +76,15 @@ def run(ctx):
     ev = 0
     ophist = {}
     coq_cases = []
+    import tempfile, shutil
+    tmp = tempfile.mkdtemp(prefix='verif-c04-')
     for k in range(nh):
         text = make_file(rng, 'wild' if k % 4 == 3 else 'plain')
-        st, inn, shx = im.read_text(text, 'quiet')
+        if k % 5 == 1:
+            main, text = with_include(make_file(rng, 'plain'), rng, tmp)
+            st, inn, shx = im.read_text(None, 'quiet', path=main)
+        else:
+            st, inn, shx = im.read_text(text, 'quiet')
         if st != 'ok' or inn:
             common.add_violation(ctx, 'a valid file raises', {'text': text}, 'ok', '%s %s' % (st, inn))
             continue
@@ -101,6 +120,7 @@ def run(ctx):
                 coq_cases.append((init_lit, [mop_literal(m) for m in h.mops], final, sorted(shx.delete_on_write), h.log))
         if k < 1:
             common.sample(ctx, {'history': [str(x) for x in h.log], 'written_head': w[:300]})
+    shutil.rmtree(tmp, ignore_errors=True)
     # correspondence: the same histories on the Coq model
     packs = []
     step = 5
